@@ -190,6 +190,16 @@ static mut VM_LAYOUT: VMLayout = VMLayout::new_32bit();
 #[cfg(target_pointer_width = "64")]
 static mut VM_LAYOUT: VMLayout = VMLayout::new_64bit();
 
+/// Verification hook: install a layout directly (same validation as `set_custom_vm_layout`,
+/// without the "already fetched" guard, so that a harness can run several layouts).
+#[cfg(mmtk_verif)]
+pub fn verif_set_vm_layout(constants: VMLayout) {
+    constants.validate();
+    unsafe {
+        VM_LAYOUT = constants;
+    }
+}
+
 static VM_LAYOUT_FETCHED: AtomicBool = AtomicBool::new(false);
 
 /// Get the current virtual memory layout in use.
